@@ -287,6 +287,8 @@ def rule_shortcut_injective(ctx):
 
 
 def run(ctx):
+    from . import pyrules
+    pyrules.rule_wrapper_state(ctx, 'R18.10')      # the Python objects are views: no state of their own
     rule_shortcut_injective(ctx)
     from . import c16
     c16.rule_python_parameters(ctx, 'R18.8')      # no parameter of the Python layer is silently ignored
